@@ -45,13 +45,23 @@ class Ctx:
         self.probe_counts = {}
         self.notes = []
         self.deadline = None
+        self.escalated = []
 
     @property
     def thorough(self):
         return self.tier == "thorough"
 
     def budget(self, quick, thorough):
-        return thorough if self.thorough else quick
+        # source drift escalation: when a function in a file this property is anchored in differs from the baseline the model was
+        # written against, the quick tier uses the thorough generator counts for this run (never a violation by itself)
+        if self.thorough:
+            return thorough
+        if self.escalated and isinstance(quick, int) and isinstance(thorough, int):
+            return max(quick, min(thorough, quick * 6))
+        return quick
+
+    def budget3(self, quick, escalated, thorough):
+        return thorough if self.thorough else (escalated if self.escalated else quick)
 
     def count(self, key, n=1):
         self.dist[key] = self.dist.get(key, 0) + n
@@ -60,7 +70,7 @@ class Ctx:
         if len(self.samples) < 12:
             self.samples.append(jsonable(s))
 
-    def compare(self, probe, args_list, impl, nontrivial=None, oracle=None, classify=None):
+    def compare(self, probe, args_list, impl, nontrivial=None, oracle=None, classify=None, rerun=True):
         """Run model probe and implementation on the same arguments; record disagreements.
         impl(arg) -> canonical value; oracle(arg, impl_out) -> None | message."""
         args_list = list(args_list)
@@ -68,6 +78,7 @@ class Ctx:
             return
         model_out = self.runner.run([(probe, a) for a in args_list])
         self.probe_counts[probe] = self.probe_counts.get(probe, 0) + len(args_list)
+        first_out = []
         for k, (a, m) in enumerate(zip(args_list, model_out)):
             try:
                 i = canon(impl(a))
@@ -92,6 +103,22 @@ class Ctx:
                 msg = oracle(a, i)
                 if msg:
                     self.violation(probe, a, msg, got=i)
+            first_out.append(i)
+        # history independence: the implementation is asked again, later and in reverse order, about a sample of the same arguments
+        # (the model is a pure function; hidden caches / shared mutable results show up here)
+        if rerun:
+            step = max(1, len(args_list) // 150)
+            for k in range(len(args_list) - 1, -1, -step):
+                try:
+                    again = canon(impl(args_list[k]))
+                except Exception as ex:
+                    again = ["raise", type(ex).__name__]
+                if again != first_out[k]:
+                    self.count("history_dependent:" + probe)
+                    if len(self.disagreements) < 50:
+                        self.disagreements.append({"probe": probe + " (asked again later)", "input": jsonable(args_list[k]), "model": jsonable(model_out[k]), "impl": jsonable(again)})
+                    self.violation(probe, args_list[k], "the implementation gave a different answer when asked again later in the same process (result depends on history)", got=again, cls="history")
+                    break
 
     def violation(self, site, inp, message, got=None, cls=None):
         if len(self.violations) < 200:
@@ -122,6 +149,15 @@ def main():
     prop = importlib.import_module("props." + pid)
     ctx = Ctx(pid, args.tier, seed)
 
+    try:
+        import fingerprints
+        anchors = [json.loads(l) for l in open(os.path.join(VERIF, "properties.jsonl"))]
+        files = next(a["anchors"]["files"] for a in anchors if a["id"] == pid)
+        ctx.escalated = fingerprints.drift_for(files)
+        if ctx.escalated:
+            log(f"[{pid}] source drift in {ctx.escalated[:5]}: escalating to the thorough generator budgets")
+    except Exception:
+        log(traceback.format_exc())
     if args.replay:
         data = unjson(json.load(open(args.replay)))
         ctx.runner = Runner()
@@ -276,6 +312,7 @@ def main():
             "input_distribution": ctx.dist,
             "broken": [list(b) for b in broken],
             "known_findings_seen": sorted(known_seen),
+            "source_drift_escalation": ctx.escalated,
             "notes": ctx.notes,
         },
         "assumptions": getattr(prop, "ASSUMPTIONS", []),
